@@ -30,8 +30,8 @@ def garbage_typelevel(types, rng, tier):
             c.add(t["tid"], f"trav {spec} -", None, why, "trav")
             c.add(t["tid"], f"xcode {spec} {target} {cap}", None, why, "xcode")
             it_target = target if target != "idx8" else "idx"
-            if t["label"] == "arr_huge":
-                continue  # 2^63+1 leaves: iteration is (correctly) not finite in practice
+            if TL.leaf_count(T.tup(t["schema"])) > 900:
+                continue  # huge arrays: a full iteration is (correctly) longer than the item cap of this run
             c.add(t["tid"], f"iter {rng.choice([0, 1, 2, 3])} {spec} {it_target} {cap} 1 0 1000", None, why, "iterroot")
     return c
 
